@@ -301,10 +301,13 @@ pub fn run_det(req: &Sx) -> (Sx, Sx) {
     }
     // a long-lived session loads files lazily: nothing registered / everything registered / a random part registered,
     // first and second extraction of the session — the outcome is a function of the file contents only
-    if fails.is_empty() && files.len() > 1 {
+    if fails.is_empty() {
         let all: Vec<usize> = (0..files.len()).collect();
         let part: Vec<usize> = all.iter().cloned().filter(|_| rng.below(2) == 0).collect();
-        for (label, pre, runs) in [("none", vec![], 1usize), ("none-twice", vec![], 2), ("part", part, 1)] {
+        // (a single file has nothing to load lazily, but the second extraction of a session still reads the SAME parsed
+        // module again: whatever the first one consumed is missing)
+        let rounds: Vec<(&str, Vec<usize>, usize)> = if files.len() > 1 { vec![("none", vec![], 1usize), ("none-twice", vec![], 2), ("part", part, 1)] } else { vec![("none-twice", vec![], 2)] };
+        for (label, pre, runs) in rounds {
             let (f2, s2, n2) = (files.clone(), s.clone(), n.clone());
             let pre2 = pre.clone();
             let h = std::thread::Builder::new().stack_size(64 << 20).spawn(move || format!("{}", outcome_sx(compile_files_lazy(&f2, &s2, &n2, &pre2, runs)))).unwrap();
